@@ -224,6 +224,7 @@ Proof.
       apply upd_sa_log in U. unfold log_ev. simpl. rewrite U. unfold net. simpl. unfold if_eq. destruct (String.eqb asset a); lia.
     + intros s0 pend rk s2 p' Hp Q0 E0. eapply record_step_net; eauto.
     + intros prop s0 k row s2 Q0 E0. eapply share_step_net; eauto.
+  - left. lia.
 Qed.
 
 
